@@ -163,6 +163,7 @@ type State struct {
 	noted map[*ssa.Function]bool
 	constCache map[int]*Term
 	hadCandidate bool
+	known map[int]*Term // terms pinned to a constant by a taken equality on this path
 	choicesPinned map[string]int64
 	concreteFails []string
 }
@@ -378,6 +379,10 @@ func (st *State) concretize(t *Term) *Term {
 			st.dec = append(st.dec, v.u)
 		}
 		if st.branch(st.ts.Eq(t, v)) {
+			if st.known == nil {
+				st.known = map[int]*Term{}
+			}
+			st.known[t.id] = v
 			return v
 		}
 	}
@@ -824,4 +829,22 @@ func (st *State) tryConst(t *Term) *Term {
 	}
 	st.constCache[t.id] = c
 	return c
+}
+
+// implied reports whether the path condition entails c (one query; unknown counts as no).
+func (st *State) implied(c *Term) bool {
+	if c.isConst() {
+		return c.u == 1
+	}
+	if st.pcSet[c.id] || st.proven[c.id] {
+		return true
+	}
+	if st.solver == nil || st.concrete != nil {
+		return false
+	}
+	if st.check(st.ts.Not(c)) == Unsat {
+		st.proven[c.id] = true
+		return true
+	}
+	return false
 }
